@@ -315,12 +315,6 @@ theorem op_refines_plain_fs_partial (d : Disk) (hr : d.RootsOK) (ht : d.TreesOK)
   have h' := (runOp_ro_cd d op hop).st h
   rw [h'.2]
 
-/-- nothing is visible below a path at which nothing is visible -/
-theorem merge_none_below (d : Disk) (hr : d.RootsOK) (p : Path) (h : specStat d p = none) (q : List Name) :
-    merge d (q ++ p) = .none := by
-  rw [merge_eq_specStat d hr, specStat_none_below d p h q]
-  rfl
-
 /-- a successful unlink removes the name from the union (from any state with a valid cache, in
     particular after any history) -/
 theorem unlink_refines_plain_fs (s : St) (hc : Consistent s) (p : List Name) (r : Reply) (s' : St)
